@@ -121,6 +121,10 @@ def set_store(
         from .codecs.databricks import DBFSStore, CommitType, DBFSURI
 
         commit_type = str(commit_type or CommitType.FULL.name).upper()
+        # The names used in the documentation of set_store
+        commit_type = {"NONE": "NO_COMMIT", "LINKS_ONLY": "LINK_ONLY"}.get(
+            commit_type, commit_type
+        )
         commit_type_ = CommitType[commit_type]
 
         _store_var = DBFSStore(
